@@ -57,7 +57,7 @@ func main() {
 		return
 	}
 	hk.Main(&hk.Component{Name: "races",
-		Rule: "scenarios = {streamable server with clients coming and going, GET streams resuming, one streamable client used from many goroutines then terminated/closed in use, first use from several goroutines, legacy SSE server+clients, stdio server on pipes, stdio client with a real child process, streamable and SSE clients with a retry policy whose calls fail transiently and back off together (one client from several goroutines, several clients), a server's registries listed in memory while the oldest tool of a sliding window is unregistered, callers of the send / request / call / registration APIs that reuse the map, slice or object they passed right after the call returned} x GOMAXPROCS x seed, each in a -race sub-process; a case is a distinct race report (field, package-level variable or API argument, function pair), a table field, a table variable or a table parameter; non-trivial = the field / variable is undisciplined or holds something mutable / the report names a tracked field or variable",
+		Rule: "scenarios = {streamable server with clients coming and going, GET streams resuming, one streamable client used from many goroutines then terminated/closed in use, first use from several goroutines, legacy SSE server+clients, stdio server on pipes, stdio client with a real child process, streamable and SSE clients with a retry policy whose calls fail transiently and back off together (one client from several goroutines, several clients), a server's registries listed in memory while the oldest tool of a sliding window is unregistered, first use of freshly registered degenerate (struct-literal) descriptors on fresh servers by concurrent listings / getters / calls, callers of the send / request / call / registration APIs that reuse the map, slice or object they passed right after the call returned} x GOMAXPROCS x seed, each in a -race sub-process; a case is a distinct race report (field, package-level variable or API argument, function pair), a table field, a table variable or a table parameter; non-trivial = the field / variable is undisciplined or holds something mutable / the report names a tracked field or variable",
 		Run:  run})
 }
 
